@@ -15,7 +15,7 @@ for i, m in enumerate(metas, 1):
     os.makedirs(d, exist_ok=True)
     shutil.copy(os.path.join(src, os.path.basename(patch)), os.path.join(d, "patch.diff"))
     shutil.copy(os.path.join(src, os.path.basename(demo)), os.path.join(d, "demo.rs"))
-    meta = {"property": pid, "source": "independent sub-agent given only the property text and a scratch worktree" + (" (second round: also told which changes had been tried, asked for harder ones)" if offset else ""),
+    meta = {"property": pid, "source": "independent sub-agent given only the property text and a scratch worktree" + (" (later round: also told which changes had been tried, asked for harder ones; see seeded/AGENT_PROMPT.txt)" if offset else ""),
             "what_changed": m.get("what_changed"), "needs_to_manifest": m.get("needs_to_manifest"), "agent_commands": m.get("commands_run")}
     json.dump(meta, open(os.path.join(d, "meta.json"), "w"), indent=1)
     print(d)
